@@ -80,6 +80,38 @@ def make_diff(kind, framing, fcs, one_read):
     return diff
 
 
+def make_diff_multi(kind, framing, im, one_read):
+    """multi-unit context hosting unit 255 (so the framer lets every unit id through) and unit 1; two requests whose
+    unit ids are symbolic (hosted or not), pipelined in one read or one per read; ignore_missing_slaves enumerated"""
+    def diffm(t: bytes, ids: bytes, b: bytes, st: bytes) -> bool:
+        assume(len(t) == 4 and len(ids) == 2 and len(b) == 8 and len(st) == 24)
+        frames = [adu.ref_adu(framing, bytes([6]) + b[0:4], ids[0], t[0:2]),
+                  adu.ref_adu(framing, bytes([6]) + b[4:8], ids[1], t[2:4])]
+        chunks = [b"".join(frames)] if (one_read and kind == "stream") else frames
+        results = []
+        for fe in TRIO[kind]:
+            sA, _ = _fresh(st[0:12])
+            sB, _ = _fresh(st[12:24])
+            ctx = SL.server_context(None, single=False, units=[(255, sA), (1, sB)])
+            r = SL.drive(fe, framing, ctx, chunks, ignore_missing=im)
+            if r.escaped is not None:
+                explain("%s: exception escaped: %r", fe, r.escaped)
+                return False
+            gave_up = (r.closed or r.twisted_dropped is not None) if kind == "stream" else False
+            results.append((fe, b"".join(r.written), (SL.dump(sA), SL.dump(sB)), gave_up))
+        base = results[0]
+        for other in results[1:]:
+            if other[3] != base[3]:
+                explain("%s gave the connection up: %r, %s: %r", other[0], other[3], base[0], base[3])
+                return False
+            if not same(other[1], base[1], "output of %s vs %s" % (other[0], base[0])):
+                return False
+            if not same(other[2], base[2], "final datastores of %s vs %s" % (other[0], base[0])):
+                return False
+        return True
+    return diffm
+
+
 class _Switch(object):
     def __init__(self, fn):
         self.fn = fn
@@ -192,6 +224,14 @@ def obligations(tier):
                                    findings=("KF-twisted-udp-stale-buffer",) if kind == "dgram" and fa == 16 else (),
                                    contracts=CONTRACTS[fr] + (("bits",) if fa in (15,) or fb in (1,) else ()), lemmas=LEMMAS[fr],
                                    bounds="%s front-ends, %s framing: two requests (fc %d then fc %d), all bytes symbolic, %s" % (kind, fr, fa, fb, "pipelined in one read" if one_read else "one per read")))
+    for kind in ("stream", "dgram"):
+        for im in (False, True):
+            for one_read in ((True, False) if kind == "stream" else (False,)):
+                if tier == "quick" and kind == "dgram" and not im:
+                    continue
+                out.append(Obl("diff.%s.tcp.multi-unit.im=%s.%s" % (kind, im, "one-read" if one_read else "two-reads"),
+                               make_diff_multi(kind, "tcp", im, one_read), timeout=T,
+                               bounds="%s front-ends, two hosted units (255 and 1), two FC6 requests with SYMBOLIC unit ids (hosted or absent), ignore_missing_slaves=%s, %s; all contents symbolic" % (kind, im, "pipelined in one read" if one_read else "one per read")))
     for fe in ("sync-tcp", "asyncio-tcp", "twisted-tcp"):
         out.append(Obl("iso.%s" % fe, make_iso(fe), timeout=T, contracts=("lrc",), lemmas=("K2",),
                        bounds="%s with the ASCII framer: connection A's frame split in two reads with connection B's two requests in between; values, tids and initial store symbolic" % fe))
